@@ -22,8 +22,8 @@ from harness.pool import pmap
 PROP = "C01"
 ROUTES = ["ugrid", "topology", "mpas", "mpas_dual", "scrip", "exodus", "esmf", "geos", "icon", "geo", "verts"]
 INVS = ["MeshOK", "RoundTrip", "ExpectedStandard", "PermOK", "CarriedConsistent", "ExtrasRoundTrip", "EmitMesh", "EmitCase"]
-QUICK_MESHES = [1, 2, 3, 4, 5, 6, 8]
-ALL_MESHES = list(range(1, 18))
+QUICK_MESHES = [1, 2, 3, 4, 5, 6, 8, 18]
+ALL_MESHES = list(range(1, 19))
 MESHFILES = os.path.join(os.environ.get("VERIF_REPO", "/repo"), "test", "meshfiles")
 
 # (id, relative path, kwargs, max tier): non-empty sample files
@@ -98,7 +98,7 @@ def judge(ctx, recs, tag):
     if res.distinct != len(recs) + nblocks:
         raise Machinery("judge visited %d states for %d records" % (res.distinct, len(recs)))
     failed, drift = {}, {}
-    for v in res.prints:
+    for v in list(res.prints) + list(X._pretty_prints(res.out, "V")) + list(X._pretty_prints(res.out, "D")):
         if isinstance(v, tuple) and len(v) == 3 and v[0] == "V":
             failed[v[1]] = sorted(v[2])
         elif isinstance(v, tuple) and len(v) == 3 and v[0] == "D":
@@ -130,10 +130,17 @@ def run(ctx):
         c["k"] = k
         disk = thorough or ((k + off) % 10 == 0)
         work.append((c, ms[c["mi"]], ctx.work, disk))
+    import time
+
+    t0 = time.time()
     recs = pmap(X.run_case, work)
+    ctx.note("replay_wall_s", round(time.time() - t0, 1))
     by_id = {c["id"]: c for c in cases}
     if len(by_id) != len(cases):
         raise Machinery("case ids are not unique")
+    skipped = [r for r in recs if "skip" in r]
+    ctx.note("not_representable_by_writer", {"n": len(skipped), "e.g.": [r["id"] for r in skipped[:3]]})
+    recs = [r for r in recs if "skip" not in r]
     errs = [r for r in recs if "error" in r]
     good = [r for r in recs if "error" not in r]
     failed, drift = judge(ctx, good, "cases") if good else ({}, {})
@@ -151,6 +158,18 @@ def run(ctx):
         c = by_id[rid]
         for clause in cl:
             ctx.violation(rid, clause, detail={"failed": cl}, sig=sig_of(c, clause), replay={"case": c, "mesh": ms[c["mi"]]})
+    summ = {}
+    for rid, cl in failed.items():
+        for clause in cl:
+            k = "%s/%s" % (by_id[rid]["route"], clause)
+            summ[k] = summ.get(k, 0) + 1
+    for r in errs:
+        k = "%s/Raises" % r["route"]
+        summ[k] = summ.get(k, 0) + 1
+    ctx.note("failed_clauses_per_route", summ)
+    if os.environ.get("C01_DUMP"):
+        with open(os.environ["C01_DUMP"], "w") as fh:
+            json.dump({"failed": failed, "errors": {r["id"]: r["error"] for r in errs}, "sigs": {c["id"]: sig_of(c, "") for c in cases}}, fh)
     if drift:
         print("MODEL-DRIFT: %d sources are presented with the corner cycle rotated (same cycle), e.g. %s" % (len(drift), sorted(drift)[:2]))
     ctx.note("corner_rotation_records", len(drift))
@@ -187,3 +206,29 @@ def run(ctx):
         "projection of integer tables (harness/ux.py: fill value -> -1 after dtype/fill checks)",
         "the SCRIP and Exodus outCSne8 sample files are taken to describe one mesh in one face order",
     ]
+
+
+def replay(path):
+    """./check C01 --replay replays/C01_<clause>_<tier>.json : re-run the stored cases and re-judge them."""
+    import shutil
+
+    from harness.core import Ctx
+
+    with open(path) as fh:
+        data = json.load(fh)
+    ctx = Ctx(PROP, "replay", 0)
+    try:
+        recs = []
+        for v in data["cases"][:25]:
+            rp = v.get("replay") or {}
+            if "case" in rp:
+                recs.append(X.run_case((rp["case"], rp["mesh"], ctx.work, False)))
+        good = [r for r in recs if "error" not in r and "skip" not in r]
+        failed, _ = judge(ctx, good, "replay") if good else ({}, {})
+        for r in recs:
+            print(r["id"], "->", r.get("error") or failed.get(r["id"], "ok"))
+            if r["id"] in failed:
+                print("   expected", r["exp"][:4], "\n   got     ", r["got"]["tbl"][:4], "node_pos", r["got"]["node_pos"][:12])
+        return 1 if failed or any("error" in r for r in recs) else 0
+    finally:
+        shutil.rmtree(ctx.work, ignore_errors=True)
